@@ -1,3 +1,4 @@
+@staticmethod
 def spec(tensor, dim, size):
     if tensor.shape[dim] > size:
         slices = list(repeat(slice(None), times=tensor.ndim))
